@@ -122,7 +122,22 @@ def rule_f2(ctx, F):
         ctx.bad("F2", "reader-drops-delimiter-length", "the delimiter length no longer flows into header_delim_len/divider_delim_len")
 
 
-PURE = ("(*opts).update", "attributes.platform", "test::TestAttributes::skip(&attributes)", "test::TestAttributes::error(&attributes)", "attributes.fail_fast", "attributes.cst")
+import re as _re
+# conditions on immutable inputs of run_tests (whatever the variables are called)
+PURE_RE = [_re.compile(r) for r in (r"^\(\*\w+\)\.update$", r"^\w+\.platform$", r"^test::TestAttributes::skip\(&\w+\)$", r"^test::TestAttributes::error\(&\w+\)$",
+                                    r"^\w+\.fail_fast$", r"^\w+\.cst$")]
+UPDATE_RE = PURE_RE[0]
+
+
+def is_pure(txt):
+    return any(r.match(txt) for r in PURE_RE)
+
+
+def update_truth(pure):
+    for k, v in pure:
+        if UPDATE_RE.match(k):
+            return v
+    return None
 
 
 def inline_text(fn, e, depth=0):
@@ -169,7 +184,7 @@ class CountMonitor(Monitor):
         if cond is not None and truth is not None:
             a, t = s.m.atom(cond, truth)
             txt = inline_text(self.fn, a)
-            if txt in PURE:
+            if is_pure(txt):
                 d = dict(pure)
                 if txt in d and d[txt] != t:
                     return PRUNE
@@ -184,7 +199,7 @@ class CountMonitor(Monitor):
 
     def exit(self, m, bid, s):
         cnt, pure, r, it = m
-        if r == "ok_true" and dict(pure).get("(*opts).update") is True and cnt != 1:
+        if r == "ok_true" and update_truth(pure) is True and cnt != 1:
             return Viol("dropped" if cnt == 0 else "duplicated")
         return None
 
@@ -217,7 +232,7 @@ def rule_p1(ctx, F):
         class NoDup(CountMonitor):
             def exit(self, m, bid, s2):
                 cnt, pure, r, it = m
-                if r == "ok_true" and dict(pure).get("(*opts).update") is True and cnt == 0:
+                if r == "ok_true" and update_truth(pure) is True and cnt == 0:
                     return Viol("dropped")
                 return None
         s2 = Search(fn, NoDup(fn, pushes), budget=2000000)
@@ -250,7 +265,7 @@ def rule_p1(ctx, F):
     else:
         ctx.bad("P1", "run_tests:write-once-per-file", "expected one write_tests call and a clear of corrected_entries in run_tests (found %d, %d)" % (len(wt), len(clr)))
     if wt:
-        ctx.gate("P1", fn, [pt for pt, c, d in wt], [("the file is rewritten only with --update", "(*opts).update", True)], accept_desc="rewriting the corpus file")
+        ctx.gate("P1", fn, [pt for pt, c, d in wt], [("the file is rewritten only with --update", "(*_).update", True)], accept_desc="rewriting the corpus file")
 
 
 def run(ctx):
